@@ -58,6 +58,8 @@ def gen_T10():
     need(re.sub(r'\s+', ' ', gs).startswith("def getSet(c): if c == 'o': Set = self.ops elif c == 'v': Set = self.voices elif c == 'h': Set = self.halfops elif c == 'b': Set = self.bans else: Set = set()"), 'ChannelState.doMode.getSet changed: ' + gs)
     setmodes = [x for x in dmc if len(x) > 1]
     need(len(setmodes) == 1, 'ChannelState.doMode: expected one mode-letter set, got %r' % setmodes)
+    need(all(ch in setmodes[0] for ch in set(plus) & set(minus) if ch not in 'ovhk'),
+         'ChannelState.doMode files a list mode (a letter taking a parameter on + and -) as a single value: %r vs %r' % (setmodes[0], plus))
     sa = _consts(_cls_def(cs, 'setMode'))
     ua = _consts(_cls_def(cs, 'unsetMode'))
     need(sa == [setmodes[0]] and ua == [setmodes[0]], 'setMode/unsetMode assertion letters: %r %r' % (sa, ua))
